@@ -62,7 +62,7 @@ func runC01(p *Program, r *Result) {
 			fa, ok := isLoadOfField(v, "Recipients")
 			return ok && fa != nil
 		})
-		okSt = len(bl) == 1 && len(bl[0].earlyExits()) == 0 && (bl[0].Exit == uw.Block() || bl[0].Exit.Dominates(uw.Block()))
+		okSt = len(bl) == 1 && p.completedAt(bl[0], uw.Block())
 	}
 	r.Check(okSt, dec.String(), "call:Unwrap:stanzas", r.pos(uw), "all header stanzas, in order", "identities are offered "+stArg+"\n   want "+want+" built by a complete loop")
 
